@@ -179,6 +179,79 @@ pub fn run_case(c: &CompatCase, st: &mut Stats) -> Result<(), Failure> {
     Ok(())
 }
 
+/// "for every file": a file whose content does NOT fit its own label - a document valid in version A, labelled L and
+/// loaded leniently (the parser warns and keeps what it can). The oracle reads the content as the library holds it:
+/// the file's own serialization with the xsd name replaced by the target's, loaded strictly.
+pub fn run_mislabel_case(c: &CompatCase, label: usize, st: &mut Stats) -> Result<(), Failure> {
+    let Some(doc) = c.doc.build() else { return Ok(()) };
+    let a = doc.version;
+    let l = versions()[label];
+    let t = versions()[c.target];
+    let mut doc_l = doc.clone();
+    doc_l.version = l;
+    let (bytes_l, _) = render(&doc_l, &[], true);
+    st.eval();
+    let case = json!({"kind": "mislabel", "doc": c.doc.to_json(), "label_vi": label, "target_vi": c.target});
+    let fail = |sig: &str, msg: String| Failure::new(sig, format!("{msg}\n--- document (content of {:?}, labelled {:?}, loaded leniently; target {:?}) ---\n{}", a, l, t, String::from_utf8_lossy(&bytes_l[..bytes_l.len().min(2500)])), case.clone());
+    let m = AutosarModel::new();
+    let (file, warnings) = match m.load_buffer(&bytes_l, "v.arxml", false) {
+        Ok(x) => x,
+        Err(_) => {
+            st.class("mislabel:not-loadable-leniently");
+            return Ok(());
+        }
+    };
+    st.class(if warnings.is_empty() { "mislabel:fits-the-label-anyway" } else { "mislabel:loaded-with-warnings" });
+    let Ok(text) = file.serialize() else { return Ok(()) };
+    let relabelled = text.replacen(l.filename(), t.filename(), 1);
+    let strict_err = first_strict_error(relabelled.as_bytes());
+    let strict_ok = strict_err.is_none();
+    let (errs, mask) = file.check_version_compatibility(t);
+    let tbit = t as u32;
+    st.class(if strict_ok { "target:valid" } else { "target:invalid" });
+    if !warnings.is_empty() {
+        st.nontrivial(mix(fnv(&bytes_l), c.target as u64));
+    }
+    let reason_class = |e: &str| -> &'static str {
+        if e.contains("enum item") {
+            "enum-item"
+        } else if e.contains("required sub element SHORT-NAME") || e.contains("SHORT-NAME was not found") {
+            "short-name-required-in-target"
+        } else if e.contains("not matched by the validation regex") || e.contains("too long") {
+            "value-space-differs-in-target"
+        } else if e.contains("Attribute") || e.contains("attribute") {
+            "attribute"
+        } else if e.contains("not allowed in") || e.contains("unexpected child") {
+            "element"
+        } else {
+            "other"
+        }
+    };
+    if errs.is_empty() != strict_ok {
+        if strict_ok {
+            return Err(fail("compat:reports-incompatibility-for-valid-target", format!("check_version_compatibility lists {} item(s) but the file's content relabelled as {:?} passes strict validation", errs.len(), t)));
+        }
+        let e = strict_err.clone().unwrap();
+        return Err(fail(&format!("compat:misses-incompatibility:{}", reason_class(&e)), format!("check_version_compatibility({:?}) lists nothing but the file's content relabelled as {:?} fails strict validation: {e}", t, t)));
+    }
+    if (mask & tbit != 0) != strict_ok {
+        return Err(fail(if strict_ok { "compat:mask-excludes-valid-target" } else { "compat:mask-contains-invalid-target" }, format!("returned mask {:#x}, target bit {:#x}, strict validation of the relabelled content: {}", mask, tbit, strict_err.clone().unwrap_or("ok".into()))));
+    }
+    match file.set_version(t) {
+        Ok(()) => {
+            if !strict_ok {
+                return Err(fail("set_version:accepts-invalid-target", format!("set_version({:?}) succeeded although the relabelled content fails strict validation: {}", t, strict_err.unwrap())));
+            }
+        }
+        Err(_) => {
+            if strict_ok {
+                return Err(fail("set_version:rejects-valid-target", format!("set_version({:?}) failed although the relabelled content passes strict validation", t)));
+            }
+        }
+    }
+    Ok(())
+}
+
 pub fn run(ctx: &Ctx) {
     ctx.set_rule(
         "Documents strictly valid in a source version (specification-derived, targeted at element types that have sub elements, attributes or enumeration items with partial version masks, or that gain / lose their SHORT-NAME) x all 21 target versions. Oracle: the content is rendered by the harness with the target's xsd name and loaded strictly in a fresh model; check_version_compatibility lists nothing <=> that load succeeds; bit t of the returned mask <=> the same; set_version(t) succeeds <=> the same; after success the content is unchanged, version() == t and the re-serialized file loads strictly as t; after failure nothing changed. \
@@ -213,11 +286,41 @@ pub fn run(ctx: &Ctx) {
             }
         }
     });
+    // files whose content does not fit their own label (lenient loads)
+    let cases = ctx.tier.pick(60_000u64, 600_000u64);
+    let strat = (0..NVER, any::<u32>(), proptest::collection::vec(any::<u32>(), 0..80), 0..NVER, 0..NVER, 0u8..4);
+    run_prop(ctx, "mislabel", cases, strat, |(vi, tsel, tape, label, target, same), st| {
+        let pool = if sens[*vi].is_empty() { &reach[*vi] } else { &sens[*vi] };
+        let tid = pool[((*tsel as u64 * pool.len() as u64) >> 32) as usize];
+        let mut t2 = vec![u32::MAX; 3];
+        t2.extend_from_slice(tape);
+        // half of the cases ask about the file's OWN version
+        let target = if *same < 2 { *label } else { *target };
+        let c = CompatCase { doc: DocCase { vi: *vi, target: tid, tape: t2, style: vec![], budget: 14, plain: true }, target, other_first: false };
+        match run_mislabel_case(&c, *label, st) {
+            Ok(()) => Outcome::Pass,
+            Err(f) => {
+                if known_open(&f.signature) {
+                    ctx.report(f);
+                    Outcome::Pass
+                } else {
+                    Outcome::Fail(f)
+                }
+            }
+        }
+    });
 }
 
 pub fn replay(ctx: &Ctx, case: &Value) {
     let mut st = Stats::new();
-    if let Some(c) = CompatCase::from_json(case) {
+    if case["kind"] == "mislabel" {
+        if let (Some(doc), Some(label), Some(target)) = (DocCase::from_json(&case["doc"]), case["label_vi"].as_u64(), case["target_vi"].as_u64()) {
+            let c = CompatCase { doc, target: target as usize, other_first: false };
+            if let Err(f) = run_mislabel_case(&c, label as usize, &mut st) {
+                ctx.report(f);
+            }
+        }
+    } else if let Some(c) = CompatCase::from_json(case) {
         if let Err(f) = run_case(&c, &mut st) {
             ctx.report(f);
         }
